@@ -10,9 +10,39 @@ def slash (l : List Int) : String := if l.isEmpty then "-" else "/".intercalate 
 /-- strtol value of a decimal literal text as int32 (what the Int variants deliver) -/
 def litInt32 (t : Bytes) : Int := (Prim.strtolTo 32 t 0 10).2
 
+/-- value of a C99 hexadecimal floating constant `sign? 0x hex* (. hex*)? (p sign? digits)?` (what strtod also accepts;
+reachable through the list walkers on malformed content such as `(0x1)`, where the token is "0" and strtod reads on) -/
+def hexLitValue (s : Bytes) : Option (Bool × Nat × Nat) :=
+  let (neg, s) := match s with | 45 :: r => (true, r) | 43 :: r => (false, r) | _ => (false, s)
+  match s with
+  | 48 :: x :: r =>
+    if x != 120 ∧ x != 88 then none else
+    let hv := fun (b : UInt8) => (Prim.digitVal b).getD 0
+    let ip := r.takeWhile Prim.isHexDigit
+    let r := r.drop ip.length
+    let (fp, r) := match r with | 46 :: t => (t.takeWhile Prim.isHexDigit, t.drop (t.takeWhile Prim.isHexDigit).length) | _ => ([], r)
+    if ip.isEmpty ∧ fp.isEmpty then none else
+    let mant := (ip ++ fp).foldl (fun a b => a * 16 + hv b) 0
+    let (ex, rest) : Int × Bytes :=
+      match r with
+      | c :: t =>
+        if c == 112 ∨ c == 80 then
+          let (eneg, t) := match t with | 45 :: u => (true, u) | 43 :: u => (false, u) | _ => (false, t)
+          let ds := t.takeWhile Lexer.isDigit
+          if ds.isEmpty then (0, r) else
+            let v : Int := ds.foldl (fun a b => a * 10 + (b.toNat - 48)) 0
+            (if eneg then -v else v, t.drop ds.length)
+        else (0, r)
+      | [] => (0, r)
+    if !rest.isEmpty then none else
+    let e2 : Int := ex - 4 * fp.length
+    let e2 : Int := if e2 > 3000 then 3000 else if e2 < -3000 then -3000 else e2
+    if e2 ≥ 0 then some (neg, mant * 2^e2.toNat, 1) else some (neg, mant, 2^(-e2).toNat)
+  | _ => none
+
 /-- bits of the correctly rounded double of a decimal literal text ("?" when it is not one) -/
 def litDouble (t : Bytes) : String :=
-  match Spec.Float.litValue t with
+  match (Spec.Float.litValue t).orElse (fun _ => hexLitValue t) with
   | some (neg, a, b) => String.ofList ((List.range 16).reverse.map (fun k => hexDigit (Spec.Float.doubleBits neg a b / 16^k % 16)))
   | none => "?"
 
